@@ -26,7 +26,14 @@ FILENAME = "gen.cp2k.out"
 EXPLICIT_FMT = False
 DATA = "/repo/iodata/test/data"
 TEMPLATES = {os.path.basename(p)[: -len(".cp2k.out")]: os.path.basename(p) for p in sorted(glob.glob(os.path.join(DATA, "*.cp2k.out")))}
-CLASSES = list(TEMPLATES)
+def _contracted(name):
+    with open(os.path.join(DATA, TEMPLATES[name])) as fh:
+        return any(ln.startswith(" s Functions") for ln in fh)
+
+
+# "<template>+fg": the same output with an f and a g polarisation shell (one primitive each) appended to every contracted
+# basis-set block; CP2K ATOM prints one "<l> Functions" block per angular momentum, g and higher included
+CLASSES = list(TEMPLATES) + [name + "+fg" for name in TEMPLATES if _contracted(name)]
 SOURCES = ["templates /repo/iodata/test/data/*.cp2k.out (real CP2K ATOM outputs)",
            "CP2K manual, ATOM section (https://manual.cp2k.org/trunk/CP2K_INPUT/ATOM.html): PRINT%BASIS_SET, PRINT%ORBITALS, PRINT%POTENTIAL; "
            "all quantities of the ATOM code are printed in atomic units unless labelled otherwise"]
@@ -59,7 +66,27 @@ def _basis(ed, i0):
             i += 1
 
 
+def _add_fg(text):
+    lines = text.split("\n")
+    out = []
+    inblock = False
+    for ln in lines:
+        if ln.startswith(" s Functions"):
+            inblock = True
+        if inblock and ln.startswith(" ****"):
+            out += [" f Functions", "       0.800000       1.000000", " g Functions", "       1.000000       1.000000"]
+            inblock = False
+        out.append(ln)
+    return "\n".join(out)
+
+
 def generate(rng, klass):
+    if klass.endswith("+fg"):
+        m = generate(rng, klass[:-3])
+        m["klass"] = klass
+        m["text"] = _add_fg(m["text"])
+        m["features"] = [klass] + m["features"][1:] + ["g-shell"]
+        return m
     ed = _perturb.Editor(os.path.join(DATA, TEMPLATES[klass]), rng)
     pseudo = any(ln.startswith("          Core Charge") for ln in ed.lines)
     _basis(ed, ed.find("Pseudopotential Basis" if pseudo else "All Electron Basis"))
